@@ -240,6 +240,7 @@ def make_pool(rng: PlanRng):
             pool[f"lb{k}a"] = sig(rng.uniform(0.05, 0.5, k))
             pool[f"ub{k}a"] = sig(rng.uniform(1.0, 4.0, k))
             pool[f"ub{k}b"] = sig(rng.uniform(5.0, 10.0, k))
+            pool[f"lb{k}B"] = sig(rng.uniform(4.1, 4.9, k))
             pool[f"ub{k}i"] = np.asarray([rng.integers(2, 9) for _ in range(k)], dtype=np.int64)
             pool[f"lb{k}i"] = np.zeros(k, dtype=np.int64)
             pool[f"x{k}a"] = sig(rng.uniform(0.5, 3.0, k))
